@@ -72,6 +72,10 @@ Schema(
             "custom_args": "list[obj:GeneratorParam]|none", "project_name": "any", "project_version": "any"},
 )
 Schema("GeneratorParam", fields={"name": "str", "mandatory": "bool"})
+Schema("ModelParamDefinitions", fields={"store": "dict"})
+Schema("ModelParams", fields={"store": "dict", "used_keys": "set"})
+Schema("ModelRepository", fields={"name_idx": "int", "filename_to_model": "dict"})
+Schema("GlobalModelRepository", fields={"local_models": "obj:ModelRepository", "all_models": "obj:ModelRepository"})
 
 # Arpeggio parse tree (T-ARP): a NonTerminal is a list of child nodes; position_end is a
 # read-only property (modelled as a field); rule is the ParsingExpression that matched
@@ -99,5 +103,7 @@ Schema(
         "user_classes": "dict",
         "filename_to_model": "dict",
         "delayed_crossrefs": "list",
+        "_tx_model_params": "obj:ModelParams",
+        "_tx_model_repository": "obj:GlobalModelRepository",
     },
 )
